@@ -49,6 +49,7 @@ func C06(c *Ctx) {
 	iteratorBuffersGroup(c, "K2.iterator-buffers-not-aliased")
 	concatPinGroup(c, "K13.concat-iterator-pins-tables")
 	reverseDedupGroup(c, "K9.reverse-version-dedup")
+	internalKeysHiddenGroup(c, "K2.internal-keys-hidden")
 	const r1 = "K9.internal-key-comparator"
 	c.Rule(r1, "internal keys (results of kv.InternalKey/KeyWithTs, Entry.Key inside lsm/utils and inside the pending-writes iterator) are ordered only by utils.CompareKeys / CompareUserKeys; bytes.Compare is applied only to user keys (operands produced by kv.ParseKey / SplitInternalKey / DecodeKeyCF or iterator bounds)")
 	// (1) the pending-writes iterator
